@@ -92,7 +92,7 @@ func realise(v interface{}, key, parent string, unit float64) interface{} {
 // ---------- response -> integers ----------
 
 var unscaledKeys = map[string]bool{
-	"thresholdsIndex": true, "ascendingIndex": true, "descendingIndex": true,
+	"thresholdsIndex": true, "ascendingIndex": true, "descendingIndex": true, "cred6": true,
 }
 
 // keys whose null value means "empty list"
